@@ -331,7 +331,8 @@ _TWIN = {}
 
 
 def _big_subst_first(p):
-    return p[0] == "subst" and p[2] == "4keys"
+    # (only one probe can be first: the one on the formula with a quantifier over a key of the map)
+    return p[0] == "subst" and p[2] == "4keys" and p[1] == "F4"
 
 
 def _order_for(failing):
